@@ -20,7 +20,7 @@ import operator
 from pprint import pprint
 
 from .core import Path, T, S, Spec, Val, glom, UnregisteredTarget, GlomError, PathAccessError, UP
-from .core import TType, register_op, TargetRegistry, bbrepr, PathAssignError, arg_val, _assign_op
+from .core import TType, register_op, TargetRegistry, bbrepr, PathAssignError, arg_val, _assign_op, _t_child
 
 
 try:
@@ -162,6 +162,8 @@ class Assign:
         val = arg_val(target, self.val, scope)
 
         op, arg, path = self.op, self.arg, self.path
+        # (a T or Spec as the last index is evaluated, like in any other step)
+        arg = arg_val(target, arg, scope)
         if self.path.startswith(S):
             dest_target = scope[UP]
             dest_path = self.path.from_t()
@@ -176,10 +178,20 @@ class Assign:
 
             # the rest of the path applies to the object being built, not to the scope
             remaining_path = self._orig_path.from_t()[pae.part_idx + 1:]
+            # (its T / Spec arguments are about the target, not the object being built)
+            remaining_t = T
+            for r_op, r_arg in remaining_path.items():
+                if r_op in '[.P':
+                    r_val = arg_val(target, r_arg, scope)
+                    if r_val is not r_arg:
+                        r_arg = Val(r_val)
+                remaining_t = _t_child(remaining_t, r_op, r_arg)
+            remaining_path = Path(remaining_t)
             # val is already evaluated: Val() keeps it from being evaluated (and copied) again
             val = scope[glom](self.missing(), Assign(remaining_path, Val(val), missing=self.missing), scope)
 
             op, arg = self._orig_path.items()[pae.part_idx]
+            arg = arg_val(target, arg, scope)
             path = self._orig_path[:pae.part_idx]
             dest = scope[glom](dest_target, path, scope)
 
@@ -326,6 +338,8 @@ class Delete:
 
     def glomit(self, target, scope):
         op, arg, path = self.op, self.arg, self.path
+        # (a T or Spec as the last index is evaluated, like in any other step)
+        arg = arg_val(target, arg, scope)
         if self.path.startswith(S):
             dest_target = scope[UP]
             dest_path = self.path.from_t()
